@@ -88,6 +88,25 @@ CHECKS = {
                 note="Assumed: CPython's attribute protocol (when __getattr__ is consulted; what object.__setattr__ does for "
                      "property names); the link's own position obeys C01-C03 because SymlinkNodeMixin inherits NodeMixin's "
                      "verified methods and keeps the bookkeeping names local (premise proved here)."),
+    "C12": dict(cat="proof", design="3/C12",
+                text="DotExporter's __iter__/__iter/__iter_options/__iter_nodes/__iter_edges and the default callbacks are proved "
+                     "from their real bodies to emit exactly: header, option lines (indented, verbatim), one node line per "
+                     "element of the PreOrderIter contract (quoted escaped identifier, attribute part verbatim), one edge line per "
+                     "parent in the pre-order one level less x child passing filter_ and not stop, closing brace; the "
+                     "UniqueDotExporter identifier table invariant (injective, stable, below the counter) is proved; esc, "
+                     "constructors, UniqueDotExporter.__init__, RenderTreeGraph are pinned by syntactic obligations.",
+                tech="contract-based deductive verification (z3 strings/sequences) + syntactic obligations for glue code",
+                note="Known finding KF5 (stop not re-checked for the child end; pinned by two reference files of the test "
+                     "suite) is subtracted by an exact case predicate and replayed on every run. Assumed: re.sub contract behind "
+                     "esc (ESC), bridge 'edge listing = pairs with both ends declared' (validated boundedly), callbacks are "
+                     "functions. Repaired by fix: 5775e32: maxlevel=0 edge traversal."),
+    "C13": dict(cat="proof", design="3/C13",
+                text="Same as C12 for MermaidExporter (__iter__, __iter, __iter_options, __iter_nodes, __iter_edges, default "
+                     "callbacks, identifier table invariant N<k>): header 'graph <direction>', option, node and edge lines; the "
+                     "child re-check includes stop; to_file, esc and __init__ pinned by syntactic obligations.",
+                tech="contract-based deductive verification (z3 strings/sequences) + syntactic obligations for glue code",
+                note="Assumed: re.sub contract behind esc, codecs.open/file.write (to_file is compared syntactically with the fenced "
+                     "listing template), edge-agreement bridge validated boundedly. Repaired by fix: 5775e32."),
 }
 REASONS = {}
 
